@@ -229,7 +229,7 @@ def gen(rng, tier, i):
     lives = 1
     def faulty_phase():
         fault = (rng.choice(('once', 'crash')) if lives < 4 else 'once', rng.choice((0, 1, 2, 3, 4, 5, 6, 8, 10, 14, 20)),
-                 rng.choice((0, 40, 300, 600, 850, 950, 990, 999)))      # share of the failing write that still reaches the file
+                 rng.choice((0, 40, 300, 600, 850, 950, 990, 999)) if rng.random() < 0.4 else rng.randint(0, 999))      # share of the failing write that still reaches the file
         load_phase(fault)
         # whatever the failed save left behind is what the next loads find, in this life or the next
         if fault[0] == 'crash':
